@@ -588,6 +588,18 @@ fn canon_reorderable(v: Vec<T>, edition_2015: bool) -> Vec<T> {
     if items.is_empty() {
         return canon_derives(v);
     }
+    // an import that imports nothing (`use {};`, `use a::{};`) is deleted by rustfmt: cut it out
+    // first, so that the runs on both sides of it are delimited alike in input and output
+    if items.iter().any(|it| it.kind == 1 && it.leaves.is_empty()) {
+        let mut rest: Vec<T> = vec![];
+        let mut pos = 0;
+        for it in items.iter().filter(|it| it.kind == 1 && it.leaves.is_empty()) {
+            rest.extend_from_slice(&v[pos..it.start]);
+            pos = it.end;
+        }
+        rest.extend_from_slice(&v[pos..]);
+        return canon_reorderable(rest, edition_2015);
+    }
     // group adjacent items of the same kind into runs
     let mut out: Vec<T> = vec![];
     let mut pos = 0;
